@@ -325,6 +325,24 @@ var pinned = []pin{
 		_, t := p.js(`fs[0]()`)
 		p.check(t != "", "expected an exception")
 	}},
+	{"embedded-ptr-promoted-cache", "after an embedded pointer is replaced from script, fields promoted through it are read from the new target", func(p *pinEnv) {
+		o := &RichP{PInner: &PInner{PX: 1, PS: []int{1}}}
+		p.set("o", o)
+		p.js(`var ps = o.PS; o.PInner = null;`)
+		_, t := p.js(`if (o.PS !== undefined) throw new Error('stale')`)
+		p.check(t == "" || t == "TypeError", "after `o.PInner = null` reading o.PS still yields the old slice (%s)", t)
+		p.expect(`ps.length`, "1")
+	}},
+	{"ptr-element-slot-alias", "the wrapper of a pointer-typed element keeps referring to the value it was taken from: swap through a temporary and reverse() work on []*T", func(p *pinEnv) {
+		a := []*S{{1}, {2}, {3}}
+		p.set("a", &a)
+		p.js(`var x = a[0]; a[0] = a[2]; a[2] = x;`)
+		p.check(a[0].Field == 3 && a[2].Field == 1, "swap through a temporary: Go a = [%d %d %d], expected [3 2 1]", a[0].Field, a[1].Field, a[2].Field)
+		b := []*S{{1}, {2}, {3}}
+		p.set("b", &b)
+		p.js(`b.reverse()`)
+		p.check(b[0].Field == 3 && b[2].Field == 1, "reverse(): Go b = [%d %d %d], expected [3 2 1]", b[0].Field, b[1].Field, b[2].Field)
+	}},
 }
 
 func runPin(i int) *violation {
@@ -380,5 +398,7 @@ func fixedCacheOnThrow() bool   { return fixed("cache-detached-on-throw") }
 func fixedRebind() bool         { return fixed("rebind-incomplete") }
 func fixedJsonEncodable() bool  { return fixed("jsonencodable-stale") }
 func fixedJSFuncConv() bool     { return fixed("jsfunc-conversion-panic") }
+func fixedEmbCache() bool       { return fixed("embedded-ptr-promoted-cache") }
+func fixedPtrSlot() bool        { return fixed("ptr-element-slot-alias") }
 
 var _ = reflect.TypeOf
